@@ -258,7 +258,7 @@ def check(run, repo):
 X_ = 'pmutt/io/excel.py'
 MUTANTS = [
     {'name': 'record created outside the row loop', 'expect': ('REF', 'read_excel'),
-     'edits': [(X_, "    for row, row_data in input_data.iterrows():\n        # Initialize thermo_data\n        thermo_data = {}", "    thermo_data = {}\n    for row, row_data in input_data.iterrows():\n        # Initialize thermo_data")]},
+     'edits': [(X_, "    for row, row_data in input_data.iterrows():\n        thermo_data = {}\n", "    thermo_data = {}\n    for row, row_data in input_data.iterrows():\n")]},
     {'name': 'empty cells stored', 'expect': ('REF.record', 'read_excel'),
      'edits': [(X_, "            if pd.isnull(cell_data):\n                # Skip empty cells\n                continue\n            elif 'Unnamed' in col:", "            if 'Unnamed' in col:")]},
     {'name': 'vib wavenumbers prepended', 'expect': ('REF.record', ''),
